@@ -5,7 +5,9 @@ Lives == UNION {[1..n -> [msgs : MsgCounts, end : {"err", "eof", "srvcancel"}]] 
 AuthInputs == [srvU : Users, srvP : Passwords, cliU : Users, cliP : Passwords]
 RetryInputs == [method : Methods, lives : Lives, max : Maxes, cancelAt : CancelAts]
 \* passwords that differ by case, contain blanks and punctuation, and pairs that URL-style decoding would identify ("a+b" / "a b", "a%2Bb" / "a+b", "a%20b" / "a b")
-PwDef == {"", "pw", "Pw", "p w!", "a+b", "a b", "a%2Bb", "a%20b"}
+\* ... and two long token-style passwords that differ only in their last character (beyond any fixed-size buffer)
+PwDef == {"", "pw", "Pw", "p w!", "a+b", "a b", "a%2Bb", "a%20b",
+          "0123456789abcdef0123456789abcdef0123456789abcdef0123456789abcdeX", "0123456789abcdef0123456789abcdef0123456789abcdef0123456789abcdeY"}
 CancelDef == {-1, 0, 1, 2}
 CancelQuick == {-1, 1}
 VARIABLE inp
